@@ -356,7 +356,7 @@ def validate_traces(ctx, progs, traces, tag="tv", timeout=1200, spec="SgKernelTr
                 reason = "the execution stops before its reference execution does"
             pi, recs = todo[bad][0], todo[bad][1]
             off = prog_line - ranges[bad][0]  # index into recs of the first unconsumed record (+1 for reset)
-            rej.append({"prog": pi, "line": off, "record": recs[off - 1] if 0 < off <= len(recs) else None,
+            rej.append({"prog": pi, "index": todo[bad][3], "line": off, "record": recs[off - 1] if 0 < off <= len(recs) else None,
                         "reason": reason, "tlc_tail": r.out[-1500:] if r.status == "invariant" else ""})
             acc += bad
             todo = todo[bad + 1:]
